@@ -224,9 +224,13 @@ def types_match(decl, actual):
 
 
 class Interp:
-    def __init__(self, program, models, max_unroll=40, prune_timeout_ms=3000):
+    def __init__(self, program, models, max_unroll=40, prune_timeout_ms=3000, overrides=None):
         self.prog = program
         self.models = models
+        # job-specific models that take precedence over MIR bodies: [(compiled regex on the canonical callee,
+        # handler)] -- used for assume-guarantee composition (a function already decided by another job is replaced
+        # by its verified specification) and for environment stubs (system API answers)
+        self.overrides = list(overrides or [])
         self.max_unroll = max_unroll
         self.solver = z3.Solver()
         self.solver.set("timeout", prune_timeout_ms)
@@ -861,6 +865,11 @@ class Interp:
     def resolve(self, callee, args, ret_ty):
         """-> ('mir', Function) | ('model', handler) ; raises Refuse."""
         name = callee
+        if self.overrides:
+            cn = self.models.canon(name)
+            for rx, h in self.overrides:
+                if rx.search(cn):
+                    return ("model", h)
         # closure call through Fn* traits
         m = re.match(r"^<(.+) as (?:std|core)::ops::(FnOnce|FnMut|Fn)<.*>>::(call_once|call_mut|call)$", name)
         if m:
@@ -916,7 +925,7 @@ class Interp:
                 cands = exact
         # library models take precedence for std/core/third-party paths only
         h = self.models.lookup(name)
-        if h is not None and not cands:
+        if h is not None and (not cands or getattr(h, "force", False)):
             return ("model", h)
         if len(cands) == 1:
             return ("mir", cands[0])
@@ -940,9 +949,18 @@ class Interp:
         if len(cands) > 1:
             # macro-generated closures share one source span: the body belonging to the innermost function on the
             # call stack that has closures of this type is the one that was created there
-            for fn_name in reversed(getattr(self, "fn_stack", [])):
-                c2 = [f for f in cands if f.name.startswith(fn_name + "::{closure#")]
+            if not hasattr(self.prog, "_index"):
+                self.prog._index = {id(g): i for i, g in enumerate(self.prog.funcs)}
+            idx = self.prog._index
+            for fobj in reversed(getattr(self, "fn_stack", [])):
+                c2 = [f for f in cands if f.name.startswith(fobj.name + "::{closure#")]
                 if c2:
+                    if len(c2) > 1 and id(fobj) in idx:
+                        # several expansions of one macro have identical names: rustc prints a closure body right
+                        # after the function that creates it, so the nearest following body is the one
+                        after = [f for f in c2 if idx.get(id(f), -1) > idx[id(fobj)]]
+                        if after:
+                            c2 = [min(after, key=lambda f: idx[id(f)])]
                     cands = c2
                     break
         if len(cands) != 1:
@@ -958,7 +976,7 @@ class Interp:
             raise Refuse("call depth > 60 (recursion?)")
         if not hasattr(self, "fn_stack"):
             self.fn_stack = []
-        self.fn_stack.append(f.name)
+        self.fn_stack.append(f)
         try:
             fid = path.nfid
             path.nfid += 1
